@@ -194,6 +194,75 @@ fn policy_menu_inner(kind: Kind, tier: Tier) -> Vec<Cfg> {
     }
 }
 
+/// Capacities far beyond what a closure can cover: start from a pre-filled cache (several shapes) and
+/// explore a relative alphabet (ends of every list, a key new to the cache) to a bounded depth.
+fn large_menu(kind: Kind, tier: Tier) -> Vec<(Cfg, usize)> {
+    let puts = |a: u8, b: u8| -> Vec<Op> { (a..b).map(|k| Op::Put(k, 0)).collect() };
+    let gets = |a: u8, b: u8| -> Vec<Op> { (a..b).map(Op::Get).collect() };
+    let depth = if tier == Tier::Thorough { 8 } else { 6 };
+    let mut v: Vec<(Cfg, usize)> = vec![];
+    let mut mk = |mut c: Cfg, prefill: Vec<Op>, v: &mut Vec<(Cfg, usize)>| {
+        c.relative = true;
+        c.prefill = prefill;
+        c.with_clone = false;
+        c.resize = vec![];
+        v.push((c, depth));
+    };
+    match kind {
+        Kind::Raw => {
+            mk(Cfg::base(Kind::Raw, &[12], 16), puts(0, 12), &mut v);
+            mk(Cfg::base(Kind::Raw, &[33], 40), puts(0, 33), &mut v);
+        }
+        Kind::Slru => {
+            mk(Cfg::base(Kind::Slru, &[8, 8], 20), puts(0, 8), &mut v);
+            let mut both = puts(0, 8);
+            both.extend(gets(0, 8));
+            both.extend(puts(8, 16));
+            mk(Cfg::base(Kind::Slru, &[8, 8], 20), both, &mut v);
+            let mut asym = puts(0, 3);
+            asym.extend(gets(0, 3));
+            asym.extend(puts(3, 12));
+            asym.extend(gets(3, 9));
+            mk(Cfg::base(Kind::Slru, &[3, 9], 16), asym, &mut v);
+        }
+        Kind::TwoQ => {
+            mk(Cfg::base(Kind::TwoQ, &[12], 24), puts(0, 12), &mut v);
+            mk(Cfg::base(Kind::TwoQ, &[12], 24), puts(0, 18), &mut v);
+            let mut half = puts(0, 12);
+            half.extend(gets(0, 6));
+            half.extend(puts(12, 15));
+            mk(Cfg::base(Kind::TwoQ, &[12], 24), half, &mut v);
+            let mut c = Cfg::base(Kind::TwoQ, &[10], 24);
+            c.ratios = (0.5, 1.0);
+            let mut h = puts(0, 20);
+            h.extend(gets(12, 16));
+            mk(c, h, &mut v);
+        }
+        Kind::Arc => {
+            mk(Cfg::base(Kind::Arc, &[8], 20), puts(0, 8), &mut v);
+            let mut g = puts(0, 8);
+            g.extend(gets(0, 4));
+            g.extend(puts(8, 14));
+            mk(Cfg::base(Kind::Arc, &[8], 20), g.clone(), &mut v);
+            // ghost hits on both sides so that p is strictly inside (0, size)
+            g.extend([Op::Put(4, 0), Op::Put(5, 0), Op::Put(14, 0), Op::Put(15, 0), Op::Put(0, 0)]);
+            mk(Cfg::base(Kind::Arc, &[8], 20), g, &mut v);
+        }
+        Kind::Wtlfu => {
+            let mut c = Cfg::base(Kind::Wtlfu, &[2, 6, 4], 16);
+            c.samples = 40;
+            c.kh = KHKind::Spread;
+            mk(c.clone(), puts(0, 12), &mut v);
+            let mut h = puts(0, 12);
+            h.extend(gets(0, 6));
+            h.extend(gets(0, 3));
+            h.extend(puts(12, 14));
+            mk(c, h, &mut v);
+        }
+    }
+    v
+}
+
 const ALL_KINDS: [Kind; 5] = [Kind::Raw, Kind::Slru, Kind::TwoQ, Kind::Arc, Kind::Wtlfu];
 
 fn obs_want() -> Wants {
@@ -257,6 +326,12 @@ pub fn plan(prop: &str, tier: Tier) -> Vec<RunSpec> {
                 for c in policy_menu(k, tier) {
                     out.push(spec(c, obs_want()));
                 }
+                for (c, d) in large_menu(k, tier) {
+                    let mut s = spec(c, obs_want());
+                    // one level less than in the per-policy properties: these three run all five cache types
+                    s.max_depth = d - 1;
+                    out.push(s);
+                }
             }
         }
         "C05" => {
@@ -270,25 +345,50 @@ pub fn plan(prop: &str, tier: Tier) -> Vec<RunSpec> {
             for c in policy_menu(Kind::Raw, tier) {
                 out.push(spec(c, obs_want()));
             }
+            for (c, d) in large_menu(Kind::Raw, tier) {
+                let mut s = spec(c, obs_want());
+                s.max_depth = d;
+                out.push(s);
+            }
         }
         "C07" => {
             for c in policy_menu(Kind::Slru, tier) {
                 out.push(spec(c, obs_want()));
+            }
+            for (c, d) in large_menu(Kind::Slru, tier) {
+                let mut s = spec(c, obs_want());
+                s.max_depth = d;
+                out.push(s);
             }
         }
         "C08" => {
             for c in policy_menu(Kind::TwoQ, tier) {
                 out.push(spec(c, obs_want()));
             }
+            for (c, d) in large_menu(Kind::TwoQ, tier) {
+                let mut s = spec(c, obs_want());
+                s.max_depth = d;
+                out.push(s);
+            }
         }
         "C09" => {
             for c in policy_menu(Kind::Arc, tier) {
                 out.push(spec(c, obs_want()));
             }
+            for (c, d) in large_menu(Kind::Arc, tier) {
+                let mut s = spec(c, obs_want());
+                s.max_depth = d;
+                out.push(s);
+            }
         }
         "C10" => {
             for c in policy_menu(Kind::Wtlfu, tier) {
                 out.push(spec(c, obs_want()));
+            }
+            for (c, d) in large_menu(Kind::Wtlfu, tier) {
+                let mut s = spec(c, obs_want());
+                s.max_depth = d;
+                out.push(s);
             }
         }
         "C02" => {
